@@ -40,11 +40,12 @@ from demeter import (AtTimeTrigger, BacktestConfig, BacktestData, BacktestManage
 from demeter.aave import AaveV3Market  # noqa: E402
 from demeter.uniswap import UniLpMarket, get_price_from_data  # noqa: E402
 
-KINDS = ("idle", "lp", "late", "swap", "aave")
+KINDS = ("idle", "lp", "late", "swap", "aave", "opt", "opt2")
 NB = 8                      # bars
 CENTRE = 207240             # tick of ~1000 USDC per ETH for (usdc 6, eth 18)
 UNI_KEY = MarketInfo("uni")
 AAVE_KEY = MarketInfo("aave", MarketTypeEnum.aave_v3)
+OPT_KEY = MarketInfo("opt", MarketTypeEnum.deribit_option)
 
 
 def q(n, d=1):
@@ -92,10 +93,26 @@ class World:
             for t in self.aave.tokens:
                 prices[t] = [p[t] for p in px]
                 self.assets[self.aave.tok[t]] = aave_drv.dec(self.aave.w0[t])
+        self.opt_df = None
+        if mix == 3:
+            # the hourly option market next to the minutely pool: one book (hour 00:00), the best ask holds 10 contracts - two takers of
+            # 8 contracts each overlap on that level when they see the same book object
+            from fractions import Fraction as Fr
+
+            from .deribit_util import book_frame
+            book = {"C": {"listed": True, "und": Fr(1000), "mark": Fr("0.05"),
+                          "asks": [{"p": Fr("0.051"), "s": Fr(10)}, {"p": Fr("0.061"), "s": Fr(50)}],
+                          "bids": [{"p": Fr("0.049"), "s": Fr(10)}, {"p": Fr("0.04"), "s": Fr(50)}]}}
+            info = {"C": {"kind": "C", "K": 1000, "exp": 10 ** 6}}
+            self.opt_df = pd.concat([book_frame(book, info)], keys=[self.uni_df.index[0]], names=["time", "instrument_name"])
+            self.data[OPT_KEY] = self.opt_df
         self.prices = (prices, quote)
 
     def markets(self):
         ms = [UniLpMarket(UNI_KEY, self.pool.pool)]
+        if self.opt_df is not None:
+            from demeter.deribit import DeribitOptionMarket
+            ms.append(DeribitOptionMarket(OPT_KEY, DeribitOptionMarket.ETH))
         if self.aave is not None:
             ms.append(AaveV3Market(AAVE_KEY, self.aave.csv, tokens=list(self.aave.tok.values())))
         return ms
@@ -152,6 +169,13 @@ class Fam(Strategy):
             tok = {t.name: t for t in aave.tokens}
             aave.supply(tok["WETH"], Decimal(6), True)
             aave.borrow(tok["USDT"], Decimal(2000))
+        elif self.kind in ("opt", "opt2") and snapshot.row_id == 0:   # option takers: both lift the same ask level of the same hour
+            opt = self.markets[OPT_KEY]
+            opt.deposit(Decimal(5) if self.kind == "opt" else Decimal(3))
+            opt.buy("C", Decimal(8))
+        elif self.kind == "opt2" and snapshot.row_id == 3:            # (closed bar: the order is refused, the deposit is not)
+            opt = self.markets[OPT_KEY]
+            opt.deposit(Decimal(1))
         elif self.kind == "aave" and snapshot.row_id == 5:
             aave = self.markets[AAVE_KEY]
             tok = {t.name: t for t in aave.tokens}
@@ -172,6 +196,9 @@ class Fam(Strategy):
                 res["positions"][mk.name] = sorted(
                     [[int(k.lower_tick), int(k.upper_tick), cell(int(p.liquidity)), cell(p.pending_amount0), cell(p.pending_amount1)]
                      for k, p in m.positions.items()])
+            elif type(m).__name__ == "DeribitOptionMarket":
+                res["positions"][mk.name] = {"cash": cell(m.balance),
+                                             "options": sorted([[k, cell(p.amount), cell(p.avg_buy_price), cell(p.buy_amount)] for k, p in m.positions.items()])}
             elif isinstance(m, AaveV3Market):
                 res["positions"][mk.name] = {
                     "supplies": sorted([[k.name, cell(v.base_amount), bool(v.collateral)] for k, v in m._supplies.items()]),
@@ -219,6 +246,8 @@ def run_config(cfg: dict, out_dir: str):
                 touched.append(f"{m.market_info.name}.positions")
             if isinstance(m, AaveV3Market) and (m._supplies or m._borrows):
                 touched.append(f"{m.market_info.name}.supplies/borrows")
+            if type(m).__name__ == "DeribitOptionMarket" and (m.positions or m.balance):
+                touched.append(f"{m.market_info.name}.positions/cash")
         return err, touched
     finally:
         world.close()
